@@ -173,6 +173,10 @@ def run(chk, repo, tier):
     cfg = {'shape': pair('shape')}
     f, paths, _ = fft_paths(repo, cfg)
     # ---------------------------------------------------------------- C09-a
+    # the refusal sees a fitted tilt only if the fit booked it on the plane it handed back
+    from .c04 import fit_tilt_rule as _fit_tilt_rule9
+    with chk.guard(['C09-a'], 'plane.Plane.fit_tilt'):
+        _fit_tilt_rule9(chk, repo, 'C09-a')
     data = nf.attr(WF, 'data')
 
     def tilt_any(v):
